@@ -6,7 +6,11 @@
     `exportResource` tests `refCount == 0` under `opts.useAnon`;
   * `Builder.add1` increments the count exactly once, for an object that is a blank node;
   * `Stmt.newTriples` builds `⟨s, p, o⟩` resp. `⟨s, p, descriptionSubject⟩`;
-  * one `rdf.NewBlankNode()` per AnonResource / nil-subject SubjectResource.
+  * one `rdf.NewBlankNode()` per AnonResource / nil-subject SubjectResource;
+  * the source is one of the two modelled variants: before patch `fix-c17-export-cycles` (no `inlined`
+    set; model functions `exportResources` …) or after it (`inlined` read negated in the second loop of
+    ExportResources and before inlining, written `true` at the top of exportResourceStatements; model
+    functions `exportResourcesV` …).
 
   A change of any of these in the Go source changes the generated file and breaks `gen_desc_facts`
   (the check then reports the broken tie and searches for a failing input).
@@ -15,10 +19,28 @@ import RdfModel.Gen.DescFacts
 namespace RdfModel.C17
 open RdfModel.Gen.DescFacts
 
+/-- the source as it was before patch `fix-c17-export-cycles` -/
+def SourceBefore : Prop :=
+  cmps = [("ResourceListBuilder.ExportResources", "opts.Inline", "==", "1"),
+          ("ResourceListBuilder.ExportResource", "opts.UseAnonResource", "==", "0"),
+          ("ResourceListBuilder.ExportResourceStatements", "opts.Inline", "==", "1")] ∧
+  marks = []
+
+/-- the source after the patch -/
+def SourceAfter : Prop :=
+  cmps = [("ResourceListBuilder.ExportResources", "opts.Inline", "==", "1"),
+          ("ResourceListBuilder.ExportResources", "&& opts.Inline", "==", "1"),
+          ("ResourceListBuilder.exportResource", "opts.UseAnonResource", "==", "0"),
+          ("ResourceListBuilder.exportResourceStatements", "opts.Inline", "==", "1")] ∧
+  marks = [("ResourceListBuilder.ExportResources", "!read"),
+           ("ResourceListBuilder.exportResourceStatements", "write=true"),
+           ("ResourceListBuilder.exportResourceStatements", "!read")]
+
+instance : Decidable SourceBefore := by unfold SourceBefore; exact inferInstance
+instance : Decidable SourceAfter := by unfold SourceAfter; exact inferInstance
+
 theorem gen_desc_facts :
-    cmps = [("ResourceListBuilder.ExportResources", "opts.Inline", "==", "1"),
-            ("ResourceListBuilder.ExportResource", "opts.UseAnonResource", "==", "0"),
-            ("ResourceListBuilder.ExportResourceStatements", "opts.Inline", "==", "1")] ∧
+    (SourceBefore ∨ SourceAfter) ∧
     incs = [("ResourceListBuilder.Add", "++", "t.Object", "rdf.BlankNode")] ∧
     triples = [("ObjectStatement.NewTriples", "Object=l.Object;Predicate=l.Predicate;Subject=s"),
                ("AnonResourceStatement.NewTriples", "Object=descriptionSubject;Predicate=l.Predicate;Subject=s")] ∧
